@@ -20,6 +20,8 @@ import (
 var (
 	verifClockFn func() int64
 	verifRandFn  func() float64
+	// verifMemStatsFn supplies runtime.MemStats.HeapInuse and .Sys to the soft-limit checks
+	verifMemStatsFn func() (heapInuse, sys uint64)
 )
 
 type verifReplayState struct {
@@ -39,6 +41,7 @@ func verifResetReplay() {
 	verifRS = verifReplayState{}
 	verifClockFn = nil
 	verifRandFn = nil
+	verifMemStatsFn = nil
 }
 
 func (r *verifReplayState) load() {
@@ -217,3 +220,11 @@ func verifOr(a, b bool) bool      { return a || b }
 func verifSymbolic() bool { return false }
 
 func verifMapOrder(k int) {}
+
+// exact real arithmetic for oracles (no float rounding terms under the executor)
+func verifRealOfInt(x int64) float64    { return float64(x) }
+func verifRealAdd(a, b float64) float64 { return a + b }
+func verifRealSub(a, b float64) float64 { return a - b }
+func verifRealMul(a, b float64) float64 { return a * b }
+func verifRealDiv(a, b float64) float64 { return a / b }
+func verifFloatIdeal() {}
